@@ -1,7 +1,17 @@
 import JominiModel.Model.BinTape
+import JominiModel.Proofs.BinTape
+import JominiModel.Proofs.BinTapeEq
+import JominiModel.Proofs.BinTapeWf
+import JominiModel.Proofs.BinTapeFaithful
+import JominiModel.Proofs.BinTapeTotal
 /-
 C03 — the binary tape mirrors the token stream; the fast paths are unobservable.
 Only property theorems live here; helper lemmas are in `Proofs/BinTape*.lean`.
+
+`parse true`  models `BinaryTapeParser::parse_slice_into_tape` (fast paths on),
+`parse false` models `parse_slice_into_tape_unoptimized` (the plain one-token-at-a-time loop).
+`step` is one iteration of the plain loop, `Reach a b` / `Reach1 a b` "the plain loop gets from `a`
+to `b` in ≥ 0 / ≥ 1 iterations", `Rejects a e` "the plain loop started at `a` ends with error `e`".
 -/
 namespace Jomini.Props.C03
 open Jomini Jomini.BinTape
@@ -26,5 +36,141 @@ theorem C03_nextState_table :
   all_goals decide
 
 example : nextState .openSecond = some .arrayValue := by decide
+
+/-- The side condition the fast paths need: an id they push as `Token` (`isPlainId`, or `0xb`) is
+not one of the typed lexemes, so the plain loop pushes it as `Token` as well (outside value
+position, where alone `RGB` is special).  `I64` (0x0317) is excluded by `isPlainId`; this is the
+obligation the code violated before the repair f2996c9. -/
+theorem C03_plain_id_not_typed (tape : Tape) (parent : Nat) (state : PState) (d : Bytes) (tok : Nat)
+    (h : isPlainId tok = true ∨ tok = 0xb) (hs : state ≠ .objectValue) :
+    tokenArm false 0 tape parent state d tok = scalarArm (.ok (tape ++ [.token tok], d)) parent state ∧
+    tok ≠ L.i64 ∧ tok ≠ L.u64 ∧ tok ≠ L.f64 :=
+  ⟨tokenArm_plainId tape parent state d tok h hs, by
+    rw [isPlainId_iff] at h; simp only [L.i64, L.u64, L.f64]; omega⟩
+
+example : isPlainId 0x2d82 = true ∧ isPlainId L.i64 = false ∧ isPlainId L.rgb = true := by decide
+
+/-- Every key fast path (token-id key, quoted key, `I32` key, `}` in key position, with the
+`parse_array_field!` loops and the inline object start), entered in state `Key` with the id `tok`
+just read from `data`, is simulated by the plain loop started at the same variables:
+* `continue 'outer` with `st'`      ⇒ the plain loop reaches `st'` in `k ≥ 1` iterations;
+* abort with error `e`             ⇒ the plain loop rejects with the same `e` (and `e` is not the
+                                      model's fuel sentinel);
+* fall through to the token match  ⇒ the plain loop reaches, in `k ≥ 0` iterations, exactly the
+                                      variables the fast path hands to the match, positioned just
+                                      before the id `tok'` it hands over.
+Hypotheses: enough fuel for the inner array loops, and the invariant `KeyInv` (in key position the
+parent slot is inside the tape and is not an `Array`), which the plain loop maintains
+(`Proofs/BinTapeEq.step_good`). -/
+theorem C03_key_fastpath_sim (F : Nat) (tape : Tape) (parent : Nat) (data d : Bytes) (tok : Nat)
+    (hr : readId data = some (tok, d)) (hF : data.length ≤ F) (hinv : KeyInv tape parent) :
+    match keyFast F tape parent d tok with
+    | .cont st' => Reach1 ⟨tape, parent, .key, data⟩ st'
+    | .err e => e ≠ .fuel ∧ Rejects ⟨tape, parent, .key, data⟩ e
+    | .fall t p s d' tok' =>
+        ∃ dpre, readId dpre = some (tok', d') ∧ Reach ⟨tape, parent, .key, data⟩ ⟨t, p, s, dpre⟩ := by
+  have h := keyFast_sim F tape parent data d tok hr hF hinv
+  cases hk : keyFast F tape parent d tok <;> rw [hk] at h <;> exact h
+
+/-- hypotheses satisfiable: `id = I32 5` at top level, the fast path fires and `continue`s. -/
+example :
+    keyFast 10 [] 0 [0x01, 0x00, 0x0c, 0x00, 5, 0, 0, 0] 0x2d82 =
+      .cont ⟨[.token 0x2d82, .i32 5], 0, .key, []⟩ ∧ KeyInv [] 0 := by
+  refine ⟨by decide, ⟨Nat.le_refl _, ?_⟩⟩
+  intro x hx; simp at hx
+
+/-- One iteration of the optimised loop is one or more iterations of the plain loop (or the same
+rejection), from every state the plain loop can be in (`Good`: `KeyInv` generalised to all states). -/
+theorem C03_iter_sim (F : Nat) (st : St) (hF : st.data.length ≤ F) (hg : st.Good) :
+    match iter true F st with
+    | .done => step st = .done
+    | .next st' => Reach1 st st'
+    | .err e => Rejects st e :=
+  iter_true_sim F st hF hg
+
+/-- **Fast paths are unobservable.**  For every byte string the optimised parser and the plain
+one-token-at-a-time interpretation produce the same tape, or both reject — with the same error
+kind (error positions are not modelled). -/
+theorem C03_fast_eq_reference (data : Bytes) : parse true data = parse false data :=
+  parse_true_eq_false data
+
+example : parse true [0x82, 0x2d, 0x01, 0x00, 0x0c, 0x00, 5, 0, 0, 0] = .ok [.token 0x2d82, .i32 5] := by
+  rfl
+
+/-- **Containers are correctly delimited** (the clause C03 shares with C06): whenever either parser
+accepts — on any input whatsoever — the tape is a sequence of complete items: every `Array`/`Object`
+at index `i ≠ 0` carries the index `e > i` of its own `End`, which carries `i`, and containers are
+properly nested (`WfBinTape`, Proofs/BinTapeItems.lean; proved through the parser invariant
+`TInv`, Proofs/BinTapeInv.lean). -/
+theorem C03_delimited (opt : Bool) (data : Bytes) (toks : Tape) (h : parse opt data = .ok toks) :
+    WfBinTape toks :=
+  C06_bin_inv opt data toks h
+
+/-- the same in index form: on every accepted tape each container start at `i` (never 0) points to
+a later `End` that points back, and each `End` points back to the container that points to it. -/
+theorem C03_delimited_links (opt : Bool) (data : Bytes) (toks : Tape) (h : parse opt data = .ok toks) :
+    (∀ i e, (toks[i]? = some (.array e) ∨ toks[i]? = some (.object e)) →
+        i ≠ 0 ∧ e ≠ 0 ∧ i < e ∧ e < toks.length ∧ toks[e]? = some (.end_ i)) ∧
+    (∀ j i, toks[j]? = some (.end_ i) →
+        i ≠ 0 ∧ i < j ∧ (toks[i]? = some (.array j) ∨ toks[i]? = some (.object j))) :=
+  C06_bin_links toks (C06_bin_inv opt data toks h)
+
+example : ∃ toks, parse true [0x82, 0x2d, 0x01, 0x00, 0x03, 0x00, 0x0c, 0x00, 5, 0, 0, 0, 0x04, 0x00] = .ok toks ∧
+    toks = [.token 0x2d82, .array 3, .i32 5, .end_ 1] := ⟨_, rfl, rfl⟩
+
+/-- **Every input has a defined outcome**: both parsers return a tape, `eof` or `syntax` — never the
+model's `ub` / `panic` / `fuel` outcomes (all unchecked accesses, the `transmute` and the
+`mixed_insert` guards hold; the loops end within `|data| + 1` iterations). -/
+theorem C03_total (opt : Bool) (data : Bytes) :
+    (∃ toks, parse opt data = .ok toks) ∨ parse opt data = .error .eof ∨ parse opt data = .error .syntax := by
+  have h1 := C05_bintape_no_ub_panic opt data
+  have h2 := (C05_bintape_fuel_enough opt data).1
+  cases h : parse opt data with
+  | ok t => exact Or.inl ⟨t, rfl⟩
+  | error e => cases e <;> simp_all
+
+example : parse true [0x04, 0x00] = .error .syntax ∧ parse true [0x82] = .ok [] ∧
+    parse true [0x82, 0x2d] = .error .eof := ⟨rfl, rfl, rfl⟩
+
+/- **Faithfulness, full statement (not yet proved beyond the flat fragment):**
+
+    theorem C03_faithful (doc : Fields) (hw : doc.wfDoc = true) (hg : no ghost `{}` directly after a `{`) :
+        parse false doc.encode = .ok (tapeOfBin doc)
+
+  for the document model of `Spec/BinTapeDoc.lean` (scalars of all ten binary types as keys and
+  values, rgb blocks, nested objects and arrays, ghost objects), and the same with object→array
+  mixed containers.  Missing: the mutual induction over `Val`/`Fields`/`Vals` (container bodies:
+  `OpenFirst → OpenSecond → '=' → Object`, array elements, the `closeTo` state after a nested
+  close, ghosts in front of the first key of a nested object, which go through the only_empties
+  rewrite).  Until then that clause is decided by the correspondence check (`btexp` cases: the
+  harness compares the real parser with the independent Rust transcription `tape_of(doc)` on every
+  generated document x encoding, the model with the real parser) and by the `example` below. -/
+
+/-- Faithfulness on flat documents: for every document whose values are all scalars — keys and values
+of any of the ten binary scalar types, any number of ghost `{}` objects in front of every key
+but the first — the reference parser (hence, by `C03_fast_eq_reference`, the optimised one)
+returns exactly the document's keys and values with their binary types and payloads, ghosts dropped. -/
+theorem C03_faithful_partial (doc : Fields) (hflat : doc.flat = true) (hw : doc.wfDoc = true) (opt : Bool) :
+    parse opt doc.encode = .ok (tapeOfBin doc) := by
+  cases opt
+  · exact faithful_flat doc hflat hw
+  · rw [C03_fast_eq_reference]; exact faithful_flat doc hflat hw
+
+/-- hypotheses satisfiable: `id = I32 5  {} "a" = U64 7` -/
+example : (Fields.cons 0 (.id 0x2d82) (.sc (.i32 [5, 0, 0, 0]))
+    (.cons 1 (.quoted [97]) (.sc (.u64 [7, 0, 0, 0, 0, 0, 0, 0])) .nil)).flat = true ∧
+    (Fields.cons 0 (.id 0x2d82) (.sc (.i32 [5, 0, 0, 0]))
+    (.cons 1 (.quoted [97]) (.sc (.u64 [7, 0, 0, 0, 0, 0, 0, 0])) .nil)).wfDoc = true := by decide
+
+/-- the full statement holds on a nested witness (object with ghost, array, rgb in both positions,
+empty containers): evaluated, not proved in general -/
+example :
+    let doc : Fields :=
+      .cons 0 (.id 0x2d82) (.obj (.cons 0 (.quoted [97]) (.arr (.cons (.sc (.i32 [1, 0, 0, 0]))
+          (.cons (.rgb [1, 0, 0, 0] [2, 0, 0, 0] [3, 0, 0, 0] none) .nil)))
+        (.cons 2 (.i32 [5, 0, 0, 0]) (.rgb [1, 0, 0, 0] [2, 0, 0, 0] [3, 0, 0, 0] (some [4, 0, 0, 0])) .nil)))
+      (.cons 1 (.id 11) (.arr .nil) (.cons 0 (.unquoted [98, 99]) (.obj .nil) .nil))
+    parse false doc.encode = .ok (tapeOfBin doc) ∧ parse true doc.encode = .ok (tapeOfBin doc) := by
+  exact ⟨rfl, rfl⟩
 
 end Jomini.Props.C03
